@@ -597,13 +597,14 @@ class ExcelModel:
         }
 
         res = dsp()
-        # Volatile cells (NOW, RAND, ...) and their dependants are not frozen.
+        # Volatile cells (NOW, RAND, ...), the inputs (e.g., when they are part
+        # of a circular reference) and their dependants are not frozen.
         stack = [
             k for k, node in dsp.function_nodes.items() if COMPILING in getattr(
                 getattr(getattr(node['function'], 'func', None), 'dsp', None),
                 'nodes', ()
             )
-        ]
+        ] + [k for k in inp if k in nodes]
         if stack:
             succ, impure = dsp.dmap.succ, set()
             while stack:
